@@ -131,6 +131,8 @@ def _read_bracket(s, start):
     hcount = 0
     if s[k] == "H":
         num, k = _digits(s, k + 1)
+        if len(num) > 1:
+            bad("hydrogen count has at most one digit (OpenSMILES: hcount ::= 'H' DIGIT?)", k)
         hcount = int(num) if num else 1
     charge = 0
     if s[k] in "+-":
